@@ -5,6 +5,7 @@ NAME = "nurimisaki"
 MODULE = "cspuz.puzzle.nurimisaki"
 FUNC = "solve_nurimisaki"
 TIER1 = ("Nurimisaki", "solve_nurimisaki_model")
+TIER1_PRIM = ("NurimisakiPrim", "solve_nurimisaki_model_prim")
 
 
 def call(mod, pb):
